@@ -157,9 +157,20 @@ func KeyshareResponse[T comparable](
 	keys map[T]*gabikeys.PublicKey,
 ) (*ProofP, error) {
 	// Sanity checks
+	if responseRequest.Nonce == nil || responseRequest.UserResponse == nil {
+		return nil, errors.New("nonce or user response missing in response request")
+	}
 	for i, k := range responseRequest.UserChallengeInput {
 		if k.KeyID != nil && keys[*k.KeyID] == nil {
 			return nil, errors.Errorf("missing public key for element %d of challenge input", i)
+		}
+		if k.Value == nil || k.Commitment == nil {
+			return nil, errors.Errorf("value or commitment missing in element %d of challenge input", i)
+		}
+		for _, c := range k.OtherCommitments {
+			if c == nil {
+				return nil, errors.Errorf("commitment missing in element %d of challenge input", i)
+			}
 		}
 	}
 	if responseRequest.Context == nil {
